@@ -1,12 +1,18 @@
 import Model.Wire
+import Proofs.Lemmas.Reply
+import Proofs.Lemmas.Server
+import Proofs.C05
+import Proofs.C09
 /-!
 # C06 — a relay hop preserves sender, recipients and content end to end
 
 Theorems over `Model/Wire.lean` (what the client puts on the wire) composed with the server's parsers of
 `Model/Server.lean`: the address in a MAIL / RCPT command line comes back exactly; an EHLO extension
 line is parsed back to the extension it was built from; base64 decoding inverts encoding for every
-byte string; the recipients of the HTTP transport come back in order. Message content across DATA is
-C05's theorem, replies are C17's, header block / body splitting is C20's.
+byte string; the recipients of the HTTP transport come back in order. The last section composes the
+legs over SMTP into one statement about the receiving server's command loop (`hop_delivers`,
+`session_delivers`, `session_delivers_any_segmentation`), using C05's reader theorem for the content
+and C09's for the segmentation. Replies are C17's, header block / body splitting is C20's.
 -/
 namespace Slimta.C06
 open Slimta Slimta.Wire
@@ -423,5 +429,250 @@ example : CleanAddr [34, 101, 92, 34, 62, 120, 34, 64, 121] := by               
   · decide
   · decide
 example : b64enc [104, 101, 108, 108, 111] = [97, 71, 86, 115, 98, 71, 56, 61] := by decide
+
+
+/-! ## the whole SMTP hop: client bytes into the server's command loop -/
+section Hop
+open Slimta.Server
+
+def Accepting (v : Verdicts) : Prop := ∀ n, v n = none
+
+theorem kw_EHLO : "EHLO".toUTF8.toList = [69, 72, 76, 79] := by decide +kernel
+theorem kw_HELO : "HELO".toUTF8.toList = [72, 69, 76, 79] := by decide +kernel
+theorem kw_STARTTLS : "STARTTLS".toUTF8.toList = [83, 84, 65, 82, 84, 84, 76, 83] := by decide +kernel
+theorem kw_AUTH : "AUTH".toUTF8.toList = [65, 85, 84, 72] := by decide +kernel
+theorem kw_MAIL : "MAIL".toUTF8.toList = [77, 65, 73, 76] := by decide +kernel
+theorem kw_RCPT : "RCPT".toUTF8.toList = [82, 67, 80, 84] := by decide +kernel
+theorem kw_DATA : "DATA".toUTF8.toList = [68, 65, 84, 65] := by decide +kernel
+
+theorem cmdIs_EHLO (n : Bytes) : cmdIs n "EHLO" = (n == [69, 72, 76, 79]) := by unfold cmdIs; rw [kw_EHLO]
+theorem cmdIs_HELO (n : Bytes) : cmdIs n "HELO" = (n == [72, 69, 76, 79]) := by unfold cmdIs; rw [kw_HELO]
+theorem cmdIs_STARTTLS (n : Bytes) : cmdIs n "STARTTLS" = (n == [83, 84, 65, 82, 84, 84, 76, 83]) := by unfold cmdIs; rw [kw_STARTTLS]
+theorem cmdIs_AUTH (n : Bytes) : cmdIs n "AUTH" = (n == [65, 85, 84, 72]) := by unfold cmdIs; rw [kw_AUTH]
+theorem cmdIs_MAIL (n : Bytes) : cmdIs n "MAIL" = (n == [77, 65, 73, 76]) := by unfold cmdIs; rw [kw_MAIL]
+theorem cmdIs_RCPT (n : Bytes) : cmdIs n "RCPT" = (n == [82, 67, 80, 84]) := by unfold cmdIs; rw [kw_RCPT]
+theorem cmdIs_DATA (n : Bytes) : cmdIs n "DATA" = (n == [68, 65, 84, 65]) := by unfold cmdIs; rw [kw_DATA]
+
+theorem step_MAIL (v : Verdicts) (s : St) (arg : Option Bytes) : step v s (some ([77, 65, 73, 76], arg)) = stepMail v s arg := by
+  simp [step, cmdIs_EHLO, cmdIs_HELO, cmdIs_STARTTLS, cmdIs_AUTH, cmdIs_MAIL]
+theorem step_RCPT (v : Verdicts) (s : St) (arg : Option Bytes) : step v s (some ([82, 67, 80, 84], arg)) = stepRcpt v s arg := by
+  simp [step, cmdIs_EHLO, cmdIs_HELO, cmdIs_STARTTLS, cmdIs_AUTH, cmdIs_MAIL, cmdIs_RCPT]
+theorem step_DATA (v : Verdicts) (s : St) (arg : Option Bytes) : step v s (some ([68, 65, 84, 65], arg)) = stepData v s arg := by
+  simp [step, cmdIs_EHLO, cmdIs_HELO, cmdIs_STARTTLS, cmdIs_AUTH, cmdIs_MAIL, cmdIs_RCPT, cmdIs_DATA]
+
+def mailSt (s : St) (a : Bytes) : St := { s with ncb := s.ncb + 1, haveMail := .yes, envelope := some (a, []) }
+def rcptSt (s : St) (r : Bytes) : St :=
+  { s with ncb := s.ncb + 1, haveRcpt := .yes, envelope := s.envelope.map fun (f, l) => (f, l ++ [r]) }
+def doneSt (s : St) : St := { s with ncb := s.ncb + 2, haveMail := .unset, haveRcpt := .unset, envelope := none }
+
+theorem mail_step (v : Verdicts) (s : St) (a : Bytes) (hv : Accepting v) (ha : CleanAddr a) (hu : utf8 a = true)
+    (he : s.ehloAs.isNone = false) (hm : s.haveMail.truthy = false) :
+    step v s (parseCommand (buildMail a none)) = (mailSt s a, [.cb (.mail a []), .reply 250], .continue_) := by
+  obtain ⟨arg, hp, afterLt, hmp, hsp⟩ := mail_roundtrip a none ha (by intro d hd; cases hd)
+  rw [hp, step_MAIL]
+  simp only [stepMail, hmp, hsp, sizePart, hu, he, hm]
+  simp [gatherParams, lookupParam, mailAccepted, callback, hv s.ncb, finish, mailSt]
+
+theorem rcpt_step (v : Verdicts) (s : St) (r : Bytes) (hv : Accepting v) (hr : CleanAddr r) (hu : utf8 r = true)
+    (hm : s.haveMail.truthy = true) :
+    step v s (parseCommand (buildRcpt r)) = (rcptSt s r, [.cb (.rcpt r []), .reply 250], .continue_) := by
+  obtain ⟨arg, hp, afterLt, hmp, hsp⟩ := rcpt_roundtrip r hr
+  rw [hp, step_RCPT]
+  simp only [stepRcpt, hmp, hsp, hu, hm]
+  simp [gatherParams, callback, hv s.ncb, finish, rcptSt]
+
+theorem data_step (v : Verdicts) (s : St) (hv : Accepting v) (hm : s.haveMail.truthy = true) (hr : s.haveRcpt.truthy = true) :
+    step v s (parseCommand [68, 65, 84, 65]) = ({ s with ncb := s.ncb + 1 }, [.cb .data, .reply 354], .data) := by
+  have hp : parseCommand [68, 65, 84, 65] = some ([68, 65, 84, 65], none) := by decide
+  rw [hp, step_DATA]
+  simp [stepData, hm, hr, callback, hv s.ncb]
+
+/-- One command line whose step continues: the loop goes on with the bytes after its CRLF. -/
+theorem loop_line (v : Verdicts) (ao : AuthOracle) (fuel : Nat) (s s1 : St) (line rest : Bytes) (acc evs : List Event)
+    (hl : ∀ b ∈ line, b ≠ 10) (hstep : step v s (parseCommand line) = (s1, evs, .continue_)) :
+    loop v ao (fuel + 1) s ⟨line ++ CRLF ++ rest, []⟩ acc = loop v ao fuel s1 ⟨rest, []⟩ (acc ++ evs) := by
+  rw [loop]
+  simp only [recvLine, Reply.matchLine_encoded line rest hl, hstep]
+
+theorem buildMail_noLF (a : Bytes) (h : ∀ b ∈ a, b ≠ 10) : ∀ b ∈ buildMail a none, b ≠ 10 := by
+  intro b hb
+  simp [buildMail, sizePart] at hb
+  rcases hb with hb | hb | hb | hb | hb | hb | hb | hb | hb | hb | hb | hb | hb <;> first | (subst hb; decide) | exact h b hb
+
+theorem buildRcpt_noLF (a : Bytes) (h : ∀ b ∈ a, b ≠ 10) : ∀ b ∈ buildRcpt a, b ≠ 10 := by
+  intro b hb
+  simp [buildRcpt] at hb
+  rcases hb with hb | hb | hb | hb | hb | hb | hb | hb | hb | hb | hb <;> first | (subst hb; decide) | exact h b hb
+
+def rcptEvents (rs : List Bytes) : List Event := (rs.map fun r => [Event.cb (.rcpt r []), Event.reply 250]).flatten
+/-- What the receiving server's handlers see for it. -/
+def hopEvents (a : Bytes) (rs : List Bytes) (content : Bytes) : List Event :=
+  [.cb (.mail a []), .reply 250] ++ rcptEvents rs ++ [.cb .data, .reply 354, .cb (.haveData (some content)), .reply 250]
+
+def OkAddr (a : Bytes) : Prop := CleanAddr a ∧ utf8 a = true
+
+theorem rcpts_loop (v : Verdicts) (ao : AuthOracle) (fuel : Nat) (rs : List Bytes) (s : St) (rest : Bytes) (acc : List Event)
+    (hv : Accepting v) (hrs : ∀ r ∈ rs, OkAddr r) (hm : s.haveMail.truthy = true) :
+    loop v ao (fuel + rs.length) s ⟨rcptBytes rs ++ rest, []⟩ acc
+      = loop v ao fuel (rs.foldl rcptSt s) ⟨rest, []⟩ (acc ++ rcptEvents rs) := by
+  induction rs generalizing s acc with
+  | nil => simp [rcptBytes, rcptEvents]
+  | cons r rs ih =>
+    have hr := hrs r (by simp)
+    have hb : rcptBytes (r :: rs) ++ rest = buildRcpt r ++ CRLF ++ (rcptBytes rs ++ rest) := by
+      simp [rcptBytes, List.append_assoc]
+    have hf : fuel + (r :: rs).length = (fuel + rs.length) + 1 := by simp; omega
+    rw [hb, hf, loop_line v ao _ s (rcptSt s r) _ _ acc _ (buildRcpt_noLF r hr.1.2) (rcpt_step v s r hv hr.1 hr.2 hm)]
+    rw [ih (rcptSt s r) _ (fun x hx => hrs x (by simp [hx])) (by simpa [rcptSt] using hm)]
+    simp [rcptEvents, List.append_assoc]
+
+theorem foldl_rcptSt_fields (rs : List Bytes) (s : St) :
+    (rs.foldl rcptSt s).haveMail = s.haveMail ∧ (rs.foldl rcptSt s).extSize = s.extSize ∧
+    (rs.foldl rcptSt s).ehloAs = s.ehloAs ∧
+    (rs.foldl rcptSt s).envelope = s.envelope.map (fun (f, l) => (f, l ++ rs)) ∧
+    (rs ≠ [] → (rs.foldl rcptSt s).haveRcpt = .yes) := by
+  induction rs generalizing s with
+  | nil => simp
+  | cons r rs ih =>
+    obtain ⟨h1, h2, h3, h4, h5⟩ := ih (rcptSt s r)
+    simp only [List.foldl_cons]
+    refine ⟨by rw [h1]; rfl, by rw [h2]; rfl, by rw [h3]; rfl, ?_, ?_⟩
+    · rw [h4]; cases he : s.envelope <;> simp [rcptSt, he]
+    · intro _
+      by_cases hrs : rs = []
+      · subst hrs; rfl
+      · exact h5 hrs
+
+theorem run_nosegs (buf : Bytes) (r : Data.Result) (h : Data.run buf [] = .ok r) : r.unread = [] := by
+  unfold Data.run Data.recvLoop at h
+  split at h
+  · cases h; rfl
+  · cases h
+
+/-- The DATA command and the message: the reader returns the normalised message, the loop goes on
+    with exactly the bytes after the end-of-data line. -/
+theorem data_loop (v : Verdicts) (ao : AuthOracle) (fuel : Nat) (s : St) (parts : List Bytes) (trail : Bytes) (acc : List Event)
+    (hv : Accepting v) (hm : s.haveMail.truthy = true) (hr : s.haveRcpt.truthy = true)
+    (hb : C05.LineBoundarySplit true parts) (hsz : Data.tooBig s.extSize (Data.send parts).length = false) :
+    loop v ao (fuel + 1) s ⟨[68, 65, 84, 65] ++ CRLF ++ (Data.send parts ++ trail), []⟩ acc
+      = loop v ao fuel (doneSt s) ⟨trail, []⟩
+          (acc ++ [.cb .data, .reply 354, .cb (.haveData (some (C05.normalize parts.flatten))), .reply 250]) := by
+  obtain ⟨r, hrun, hdata, hrest⟩ := C05.data_roundtrip parts hb trail (Data.send parts ++ trail) [] (by simp) (by simp)
+  have hun := run_nosegs _ r hrun
+  rw [hun] at hrest
+  simp only [List.flatten_nil, List.append_nil] at hrest
+  rw [loop]
+  have hline : ∀ b ∈ ([68, 65, 84, 65] : Bytes), b ≠ 10 := by decide
+  simp only [recvLine, Reply.matchLine_encoded _ _ hline, data_step v s hv hm hr]
+  have hlim : Data.runLimited s.extSize (Data.send parts ++ trail) [] = .ok ⟨some r.data, r.recvBuffer, r.unread⟩ := by
+    simp only [Data.runLimited, hrun, hun, hrest]
+    simp [hsz]
+  simp only [hlim, hdata, hrest, hun]
+  simp [afterData, callback, hv (s.ncb + 1), finish, doneSt, List.append_assoc]
+
+/-- A session between two transactions: greeted with EHLO/HELO, nothing open. -/
+structure Ready (s : St) : Prop where
+  ehlo : s.ehloAs.isNone = false
+  mail : s.haveMail = .unset
+  rcpt : s.haveRcpt = .unset
+  env : s.envelope = none
+
+def afterHop (s : St) (a : Bytes) (rs : List Bytes) : St := doneSt (rs.foldl rcptSt (mailSt s a))
+
+theorem afterHop_ready (s : St) (a : Bytes) (rs : List Bytes) (h : Ready s) :
+    Ready (afterHop s a rs) ∧ (afterHop s a rs).extSize = s.extSize := by
+  obtain ⟨_, h2, h3, _, _⟩ := foldl_rcptSt_fields rs (mailSt s a)
+  exact ⟨⟨by simp only [afterHop, doneSt]; rw [h3]; exact h.ehlo, rfl, rfl, rfl⟩, by simp only [afterHop, doneSt]; rw [h2]; rfl⟩
+
+/-- **One hop, end to end.** A receiving server between two transactions, with validators that
+    accept; the bytes a relay client sends for one message — MAIL with any clean sender, RCPT for each
+    of any non-empty list of clean recipients, DATA, the message cut into any parts at line
+    boundaries — followed by any further bytes. The server's handlers see exactly that sender, exactly
+    those recipients in order, and exactly the (CRLF-terminated) message; each command is answered
+    250 / 354; nothing of the message is taken for a command and nothing after it is consumed: the
+    session goes on, again between two transactions, with exactly the bytes that followed. -/
+theorem hop_delivers (v : Verdicts) (ao : AuthOracle) (fuel : Nat) (s : St) (a : Bytes) (rs parts : List Bytes)
+    (trail : Bytes) (acc : List Event)
+    (hv : Accepting v) (hs : Ready s) (ha : OkAddr a) (hrs : ∀ r ∈ rs, OkAddr r) (hne : rs ≠ [])
+    (hb : C05.LineBoundarySplit true parts) (hsz : Data.tooBig s.extSize (Data.send parts).length = false) :
+    loop v ao (fuel + rs.length + 2) s ⟨hopBytes a rs parts ++ trail, []⟩ acc
+      = loop v ao fuel (afterHop s a rs) ⟨trail, []⟩ (acc ++ hopEvents a rs (C05.normalize parts.flatten)) := by
+  have hbytes : hopBytes a rs parts ++ trail
+      = buildMail a none ++ CRLF ++ (rcptBytes rs ++ ([68, 65, 84, 65] ++ CRLF ++ (Data.send parts ++ trail))) := by
+    simp [hopBytes, List.append_assoc]
+  have hf : fuel + rs.length + 2 = ((fuel + 1) + rs.length) + 1 := by omega
+  have hm0 : s.haveMail.truthy = false := by rw [hs.mail]; rfl
+  rw [hbytes, hf, loop_line v ao _ s (mailSt s a) _ _ acc _ (buildMail_noLF a ha.1.2) (mail_step v s a hv ha.1 ha.2 hs.ehlo hm0)]
+  have hm1 : (mailSt s a).haveMail.truthy = true := rfl
+  rw [rcpts_loop v ao (fuel + 1) rs (mailSt s a) _ _ hv hrs hm1]
+  obtain ⟨h1, h2, _, _, h5⟩ := foldl_rcptSt_fields rs (mailSt s a)
+  rw [data_loop v ao fuel _ parts trail _ hv (by rw [h1]; rfl) (by rw [h5 hne]; rfl) hb (by rw [h2]; exact hsz)]
+  simp [afterHop, hopEvents, List.append_assoc]
+
+/-- The envelope the session has collected when the message-received callback is made: the sender and
+    the recipients, in order. -/
+theorem hop_envelope (s : St) (a : Bytes) (rs : List Bytes) :
+    (rs.foldl rcptSt (mailSt s a)).envelope = some (a, rs) := by
+  obtain ⟨_, _, _, h4, _⟩ := foldl_rcptSt_fields rs (mailSt s a)
+  rw [h4]; simp [mailSt]
+
+/-- Several messages over one connection: the events are those of each message in turn. -/
+structure Msg where
+  sender : Bytes
+  rcpts : List Bytes
+  parts : List Bytes
+
+def Msg.Ok (maxSize : Option Nat) (m : Msg) : Prop :=
+  OkAddr m.sender ∧ (∀ r ∈ m.rcpts, OkAddr r) ∧ m.rcpts ≠ [] ∧ C05.LineBoundarySplit true m.parts ∧
+  Data.tooBig maxSize (Data.send m.parts).length = false
+
+def sessionBytes (ms : List Msg) : Bytes := (ms.map fun m => hopBytes m.sender m.rcpts m.parts).flatten
+def sessionEvents (ms : List Msg) : List Event :=
+  (ms.map fun m => hopEvents m.sender m.rcpts (C05.normalize m.parts.flatten)).flatten
+def sessionFuel (ms : List Msg) : Nat := (ms.map fun m => m.rcpts.length + 2).sum
+
+theorem session_delivers (v : Verdicts) (ao : AuthOracle) (ms : List Msg) (fuel : Nat) (s : St) (trail : Bytes) (acc : List Event)
+    (hv : Accepting v) (hs : Ready s) (hms : ∀ m ∈ ms, m.Ok s.extSize) :
+    ∃ s', Ready s' ∧ loop v ao (fuel + sessionFuel ms) s ⟨sessionBytes ms ++ trail, []⟩ acc
+      = loop v ao fuel s' ⟨trail, []⟩ (acc ++ sessionEvents ms) := by
+  induction ms generalizing s acc with
+  | nil => exact ⟨s, hs, by simp [sessionFuel, sessionBytes, sessionEvents]⟩
+  | cons m ms ih =>
+    obtain ⟨ha, hrs, hne, hb, hsz⟩ := hms m (by simp)
+    obtain ⟨hready, hext⟩ := afterHop_ready s m.sender m.rcpts hs
+    obtain ⟨s', hs', heq⟩ := ih (afterHop s m.sender m.rcpts) (acc ++ hopEvents m.sender m.rcpts (C05.normalize m.parts.flatten))
+      hready (fun x hx => by rw [hext]; exact hms x (by simp [hx]))
+    refine ⟨s', hs', ?_⟩
+    have hf : fuel + sessionFuel (m :: ms) = (fuel + sessionFuel ms) + m.rcpts.length + 2 := by
+      simp [sessionFuel]; omega
+    have hbytes : sessionBytes (m :: ms) ++ trail = hopBytes m.sender m.rcpts m.parts ++ (sessionBytes ms ++ trail) := by
+      simp [sessionBytes, List.append_assoc]
+    rw [hf, hbytes, hop_delivers v ao _ s m.sender m.rcpts m.parts _ acc hv hs ha hrs hne hb hsz, heq]
+    simp [sessionEvents, List.append_assoc]
+
+/-- … and under every segmentation of those bytes (C09). -/
+theorem session_delivers_any_segmentation (v : Verdicts) (ao : AuthOracle) (ms : List Msg) (fuel : Nat) (s : St) (trail : Bytes)
+    (acc : List Event) (st : Stream) (hv : Accepting v) (hs : Ready s) (hms : ∀ m ∈ ms, m.Ok s.extSize)
+    (hst : st.flat = sessionBytes ms ++ trail) (hne : NoEmpty st.segs) :
+    ∃ s', Ready s' ∧ RunEq (loop v ao (fuel + sessionFuel ms) s st acc)
+      (loop v ao fuel s' ⟨trail, []⟩ (acc ++ sessionEvents ms)) := by
+  obtain ⟨s', hs', heq⟩ := session_delivers v ao ms fuel s trail acc hv hs hms
+  refine ⟨s', hs', ?_⟩
+  rw [← heq]
+  exact loop_same v ao _ s acc st ⟨sessionBytes ms ++ trail, []⟩ ⟨by simpa [Stream.flat] using hst, hne, by intro x hx; cases hx⟩
+
+/-- The hypotheses are satisfiable: a greeted session, one message with a quoted sender and two recipients. -/
+example : Ready { extTls := false, extAuth := false, extSize := some 100, bannered := true, ehloAs := some [97] } ∧
+    Msg.Ok (some 100) ⟨[34, 97, 62, 98, 34, 64, 120], [[99, 64, 100], [101, 64, 102]], [[104, 105, 13, 10], [46, 120]]⟩ := by
+  refine ⟨⟨rfl, rfl, rfl, rfl⟩, ⟨⟨?_, ?_⟩, ?_⟩, ?_, ?_, ?_, ?_⟩
+  · decide
+  · intro b hb; simp at hb; rcases hb with h | h | h | h | h | h | h <;> subst h <;> decide
+  · decide
+  · intro r hr; simp at hr; rcases hr with h | h <;> subst h <;> exact ⟨⟨by decide, by decide⟩, by decide⟩
+  · simp
+  · simp [C05.LineBoundarySplit]
+  · decide
+
+end Hop
 
 end Slimta.C06
